@@ -171,7 +171,7 @@ class C24(Standard):
         rng = ctx.rng
         cfgs = self.cfgs(ctx)
         cases = boundary_cases(cfgs)
-        per = 60 if not ctx.thorough else 1200
+        per = 60 if not ctx.thorough else 600
         for cfg in cfgs:
             for k in range(per):
                 own = A.OWN if rng.random() < 0.8 else A.OWN_P
